@@ -2,7 +2,6 @@
 package c11
 
 import (
-	"bytes"
 	"fmt"
 	"reflect"
 	"sort"
@@ -10,16 +9,13 @@ import (
 	"time"
 
 	"github.com/protobom/protobom/pkg/formats"
-	"github.com/protobom/protobom/pkg/native"
 	"github.com/protobom/protobom/pkg/sbom"
-	"github.com/protobom/protobom/pkg/writer"
 	"google.golang.org/protobuf/proto"
 	"google.golang.org/protobuf/reflect/protoreflect"
 
-	_ "github.com/protobom/protobom/pkg/native/serializers/beta"
-
 	"mcverif/engine"
 	"mcverif/gen"
+	"mcverif/rw"
 )
 
 var Spec = engine.Spec{
@@ -259,22 +255,10 @@ func Ops(d *sbom.Document) []Op {
 }
 
 // Formats lists the serializer formats under test (the seven defaults + SPDX 3 beta).
-func Formats() []formats.Format {
-	return []formats.Format{formats.CDX10JSON, formats.CDX11JSON, formats.CDX12JSON, formats.CDX13JSON, formats.CDX14JSON, formats.CDX15JSON, formats.SPDX23JSON, formats.Format("text/spdx+json;version=3.0")}
-}
-
-type nopCloser struct{ *bytes.Buffer }
-
-func (nopCloser) Close() error { return nil }
-
-var theWriter = writer.New()
+func Formats() []formats.Format { return rw.AllFormats }
 
 // Serialize writes d in format f with the harness's own options value; errors are fine.
-func Serialize(d *sbom.Document, f formats.Format) ([]byte, error) {
-	var buf bytes.Buffer
-	err := theWriter.WriteStreamWithOptions(d, nopCloser{&buf}, &writer.Options{Format: f, RenderOptions: &native.RenderOptions{Indent: 2}, SerializeOptions: &native.SerializeOptions{}})
-	return buf.Bytes(), err
-}
+func Serialize(d *sbom.Document, f formats.Format) ([]byte, error) { return rw.Write(d, f, 2) }
 
 func Run(c *engine.Ctx) {
 	if u := unclassified(); len(u) > 0 {
